@@ -162,7 +162,7 @@ pub fn run(seed: u64, n: usize, tier: &str) {
     for ver in [0u64, 1, 2, 0x12] {
         for codec in [0x70u64, 0x55, 0x20] {
             for code in TABLE_CODES {
-                for size in [0u64, 20, 32, 64, 65] {
+                for size in [0u64, 20, 32, 64, 65, 255, 256, 288, 65568, 1 << 32, u64::MAX] {
                     let mut bs = leb128(ver);
                     bs.extend(leb128(codec));
                     bs.extend(leb128(*code));
